@@ -215,6 +215,8 @@ def _worker_init():
     import ctypes, signal
     ctypes.CDLL(None).prctl(1, signal.SIGKILL)      # PR_SET_PDEATHSIG
     if os.getppid() == 1: os._exit(0)
+    import faulthandler
+    faulthandler.register(signal.SIGUSR1, all_threads=True)      # kill -USR1 <worker> prints where it is
   except Exception:
     pass
 
